@@ -433,6 +433,36 @@ def version_checks(run):
         case = {'pair': [a, b]}
         run.case(case)
         run.check((V(a) > V(b)) == gt, 'C03.version-order', case, V(a) > V(b), gt)
+    # the recorded version as the READER sees it: one file, its 4-byte version word rewritten to each release (the word is 32 bits wide:
+    # a major release or a minor number above 31 does not fit in 16), read back and compared; the file stays readable as a current one
+    from .. import writers
+    from seismic_zfp.read import SgzReader
+    d = env.subdir('c03v')
+    p0 = os.path.join(d, 'stamp.sgz')
+    shape = (5, 6, 9)
+    th = {segyio.TraceField.CDP_X: (np.arange(30).reshape(5, 6) * 7 + 3).astype(np.int32), segyio.TraceField.CDP_Y: (1000 - np.arange(30).reshape(5, 6)).astype(np.int32)}
+    writers.numpy_to_sgz(p0, inputs.cube(shape, run.seed + 77), 16, (4, 4, -1), trace_headers=th, samples=2.0 * np.arange(9))
+    with open(p0, 'rb') as f:
+        base = bytearray(f.read())
+    for vs in ('0.2.9', '0.2.2', '0.2.2.dev', '0.31.1023', '0.32.0', '0.32.0.dev', '1.0.0', '1.2.3', '2.0.0.dev', '3.1023.1023'):
+        case = {'recorded_version': vs}
+        run.case(case)
+        b = bytearray(base)
+        b[72:76] = int(V(vs).encoding).to_bytes(4, 'little')
+        with open(p0, 'wb') as f:
+            f.write(b)
+        try:
+            with env.quiet():
+                with SgzReader(p0) as r:
+                    got = {'version': r.file_version.string_version, 'dz': float(r.zslices[1] - r.zslices[0]), 'ntr': int(r.tracecount),
+                           'last': {int(k): int(v) for k, v in r.gen_trace_header(29).items() if int(k) in (181, 185, 189, 193)}}
+        except BaseException as e:
+            if isinstance(e, (KeyboardInterrupt, SystemExit, MemoryError)):
+                raise
+            got = f'{type(e).__name__}: {e}'
+        want = {'version': V(vs).string_version, 'dz': 2.0, 'ntr': 30, 'last': {181: 29 * 7 + 3, 185: 1000 - 29, 189: 4, 193: 5}}
+        run.check(got == want, 'C03.version-read-back', case, got, want)
+    os.remove(p0)
     # encoding: bijection preserving release order over the whole range (thorough) / the boundary set (quick)
     top = 4 * 1024 * 1024 * 2
     if quick:
